@@ -57,6 +57,92 @@ fn mode_is_new() -> bool {
     matches!(convert_from_clvm_rs(&mut a, hloc(), z).map(|x| (*x).clone()), Ok(SExp::QuotedString(_, _, _)))
 }
 
+
+// ------------------------------------------------------------------------------------------------
+// probe programs: small programs built from the shapes the optimiser passes key on (calls with constant
+// arguments, several independent repeated subexpressions in one body, inline functions used more than once,
+// lets, lambdas), so that state left behind by an earlier compilation or an iteration-order decision has
+// something to act on.  `typo`: the same program with one variable replaced by an unbound name (a history
+// that ends in an error raised from inside the pass).
+
+fn arith(rng: &mut Rng, vars: &[&str], depth: usize) -> String {
+    if depth == 0 || rng.chance(1, 5) {
+        return if rng.chance(2, 3) { rng.pick(vars).to_string() } else { format!("{}", rng.range(2, 99)) };
+    }
+    let op = *rng.pick(&["+", "*", "-", "logxor", "logior"]);
+    let n = 2 + rng.below(3);
+    let args: Vec<String> = (0..n).map(|_| arith(rng, vars, depth - 1)).collect();
+    format!("({} {})", op, args.join(" "))
+}
+
+fn probe_program(rng: &mut Rng, sigil: &str, typo: bool) -> String {
+    let mut helpers: Vec<String> = vec![];
+    let mut main_parts: Vec<String> = vec![];
+    let q = |typo: bool, v: &str| if typo { "QQ_unbound".to_string() } else { v.to_string() };
+    let nshapes = 2 + rng.below(3);
+    let mut typo_left = typo;
+    for k in 0..nshapes {
+        let this_typo = typo_left && (k == nshapes - 1 || rng.chance(1, 2));
+        if this_typo {
+            typo_left = false;
+        }
+        match rng.below(7) {
+            0 => {
+                // constant call, from the main expression and from inside a helper
+                helpers.push(format!("(defun F{k} (A B) (* A B {} {}))", rng.range(2, 9), q(this_typo, "A")));
+                helpers.push(format!("(defun G{k} (X) (+ X (F{k} {} {})))", rng.range(2, 50), rng.range(2, 50)));
+                main_parts.push(format!("(G{k} X)"));
+                if rng.chance(1, 2) {
+                    main_parts.push(format!("(F{k} {} {})", rng.range(2, 50), rng.range(2, 50)));
+                }
+            }
+            1 => {
+                // two (or three) independent repeated subexpressions over the arguments
+                let e1 = arith(rng, &["A", "B"], 2);
+                let e2 = arith(rng, &["B", "A"], 2);
+                let e3 = arith(rng, &["A", "B"], 2);
+                helpers.push(format!("(defun C{k} (A B) (list (sha256 (sha256 {e1} {e2}) (sha256 {e3} {})) (sha256 (sha256 {e3} A) (sha256 {e1} {e2}))))", q(this_typo, "A")));
+                main_parts.push(format!("(C{k} X Y)"));
+            }
+            2 => {
+                // repeated subexpressions that mention no variable and cannot be folded (the callee raises)
+                helpers.push(format!("(defun R{k} (N) (if N (+ N (R{k} (- N 1))) (x)))"));
+                let (a, b) = (rng.range(3, 20), rng.range(21, 40));
+                helpers.push(format!("(defun D{k} (A B) (list (sha256 (R{k} {a}) (R{k} {b}) {}) (sha256 (R{k} {b}) (R{k} {a}) B)))", q(this_typo, "A")));
+                main_parts.push(format!("(D{k} X Y)"));
+            }
+            3 => {
+                // inline function used several times + a let whose bindings repeat
+                let e = arith(rng, &["P", "Q"], 2);
+                helpers.push(format!("(defun-inline I{k} (P Q) {e})"));
+                helpers.push(format!("(defun J{k} (A B) (let ((u (I{k} A B)) (v (I{k} B {}))) (list u v (I{k} A B) u)))", q(this_typo, "A")));
+                main_parts.push(format!("(J{k} X Y)"));
+            }
+            4 => {
+                // lambda capturing an argument, applied twice
+                let e = arith(rng, &["A", "z"], 2);
+                helpers.push(format!("(defun L{k} (A B) (let ((fn (lambda ((& A) z) {e}))) (list (a fn (list B)) (a fn (list {})))))", q(this_typo, "A")));
+                main_parts.push(format!("(L{k} X Y)"));
+            }
+            5 => {
+                // repeated subexpressions under different conditions
+                let e1 = arith(rng, &["A", "B"], 2);
+                let e2 = arith(rng, &["A", "B"], 2);
+                helpers.push(format!("(defun K{k} (A B) (if A (list {e1} {e1} {e2}) (list {e2} {e2} {})))", q(this_typo, "B")));
+                main_parts.push(format!("(K{k} X Y)"));
+            }
+            _ => {
+                // assign with dependent bindings and a constant that needs evaluation
+                let e1 = arith(rng, &["A"], 2);
+                helpers.push(format!("(defconst KK{k} (* {} {}))", rng.range(2, 30), rng.range(2, 30)));
+                helpers.push(format!("(defun S{k} (A B) (assign p {e1} r (+ p KK{k}) s (* r {}) (list p r s p)))", q(this_typo, "B")));
+                main_parts.push(format!("(S{k} X Y)"));
+            }
+        }
+    }
+    format!("(mod (X Y)\n  (include {sigil})\n  {}\n  (list {})\n)\n", helpers.join("\n  "), main_parts.join(" "))
+}
+
 struct Target {
     id: String,
     text: String,
@@ -150,6 +236,11 @@ pub fn run(cfg: &Cfg) -> i32 {
         }
         targets.push(Target { id: format!("{}-{}", case.id, d.name()), text: case.text(d), path: "*c05*".into(), dirs: vec![], kind: "generated" });
     }
+    let mut prng = Rng::derive(cfg.seed, 555, shard);
+    for i in 0..cfg.pick(12, 120) {
+        let sigil = ["*standard-cl-23*", "*standard-cl-23.1*", "*standard-cl-24*", "*standard-cl-21*", "*standard-cl-23*", "*standard-cl-24*"][i % 6];
+        targets.push(Target { id: format!("probe-{}-{}-{}", cfg.seed, shard, i), text: probe_program(&mut prng, sigil, false), path: "*c05*".into(), dirs: vec![], kind: "probe" });
+    }
     let nship = cfg.pick(6, 60);
     let mut srng = Rng::derive(cfg.seed, 55, shard);
     for _ in 0..nship {
@@ -224,8 +315,12 @@ pub fn run(cfg: &Cfg) -> i32 {
             let nprior = rng.below(4);
             for _ in 0..nprior {
                 let other = &targets[rng.below(targets.len())];
-                let variant = rng.below(4);
+                let variant = rng.below(6);
                 let txt = match variant {
+                    4 | 5 => {
+                        let sg = ["*standard-cl-23*", "*standard-cl-23.1*", "*standard-cl-24*", "*standard-cl-21*"][rng.below(4)];
+                        probe_program(&mut rng, sg, variant == 4)
+                    }
                     0 => other.text.clone(),
                     1 => crate::mutate::mutate(&mut rng, &other.text, &t.text).iter().map(|b| *b as char).collect::<String>(),
                     2 => format!("(mod (X) (include *standard-cl-{}*) (defun f (A) (+ A 1)) (f X))", ["21", "22", "23", "23.1", "24"][rng.below(5)]),
